@@ -27,7 +27,8 @@ def norm(s):
 
 
 def signature(lines, i):
-    """nearest preceding `name(` line and its parameter list up to the closing parenthesis"""
+    """nearest preceding `name(` line that starts a function *definition* (its parameter list is followed by `{`,
+    `const {` or a constructor initialiser `:`), with the parameter list up to the closing parenthesis"""
     j = i
     while j >= 0:
         m = HEADER.match(lines[j])
@@ -36,18 +37,23 @@ def signature(lines, i):
             txt = ""
             k = j
             depth = 0
-            while k < len(lines):
-                for ch in lines[k]:
+            done = False
+            while k < len(lines) and not done:
+                for pos, ch in enumerate(lines[k]):
                     txt += ch
                     if ch == "(":
                         depth += 1
                     elif ch == ")":
                         depth -= 1
                         if depth == 0:
-                            return norm(txt)
+                            rest = (lines[k][pos + 1:] + " " + " ".join(lines[k + 1:k + 4])).strip()
+                            rest = re.sub(r"^(const|throw\s*\(\s*\)|XALAN_\w+)\s*", "", rest).strip()
+                            if rest.startswith("{") or rest.startswith(":"):
+                                return norm(txt)
+                            done = True
+                            break
                 txt += " "
                 k += 1
-            return norm(txt)
         j -= 1
     return "?"
 
@@ -125,6 +131,94 @@ def facts():
     ]
 
 
+VALUE_FUNCS = r"\b(getNodeData|getChildData|getChildrenData|doGetNodeData)\s*\("
+SKIP_DIRS = ("Deprecated", "TestXPath", "TestXSLT", "Harness", "XalanExe", "XalanExtensions", "XalanEXSLT")
+
+
+def call_text(txt, i):
+    """text of the call starting at index i (the function name) up to the matching ')'"""
+    j = txt.find("(", i)
+    depth, k = 0, j
+    while k < len(txt):
+        if txt[k] == "(":
+            depth += 1
+        elif txt[k] == ")":
+            depth -= 1
+            if depth == 0:
+                return txt[i:k + 1], txt[j + 1:k]
+        k += 1
+    return txt[i:], ""
+
+
+def split_args(a):
+    out, depth, cur = [], 0, ""
+    for ch in a:
+        if ch in "([":
+            depth += 1
+        elif ch in ")]":
+            depth -= 1
+        if ch == "," and depth == 0:
+            out.append(cur.strip())
+            cur = ""
+        else:
+            cur += ch
+    if cur.strip():
+        out.append(cur.strip())
+    return out
+
+
+def value_sites():
+    """every call that computes a node's string value or walks its children for it: DOMServices::getNodeData and, inside
+    DOMServices itself, getChildData / getChildrenData / doGetNodeData — with whether the call hands on an execution
+    context (the strip-aware overload) or not.  (file, enclosing function, call, "ctx" | "noctx")"""
+    res = []
+    for base, dirs, files in sorted(os.walk(SRC)):
+        if any(d in base.split(os.sep) for d in SKIP_DIRS):
+            continue
+        for f in sorted(files):
+            if not f.endswith((".cpp", ".hpp")):
+                continue
+            p = os.path.join(base, f)
+            raw = open(p, encoding="utf-8", errors="replace").read()
+            txt = re.sub(r"//[^\n]*", lambda m: " " * len(m.group(0)), raw)      # keep offsets
+            lines = txt.split("\n")
+            starts = [0]
+            for ln in lines:
+                starts.append(starts[-1] + len(ln) + 1)
+            inside = f.startswith("DOMServices.")
+            rx = VALUE_FUNCS if inside else r"\bgetNodeData\s*\("
+            for m in re.finditer(rx, txt):
+                call, args = call_text(txt, m.start())
+                al = split_args(args)
+                if not al:
+                    continue
+                if re.match(r"^(const\s+)?(Xalan\w+|ExecutionContext|FormatterListener|XalanDOMString)\s*[&*]\s*\w*$", norm(al[0])):
+                    continue                          # declaration / definition, not a call
+                # line index of the call
+                li = 0
+                lo, hi = 0, len(starts) - 1
+                while lo < hi:
+                    mid = (lo + hi + 1) // 2
+                    if starts[mid] <= m.start():
+                        lo = mid
+                    else:
+                        hi = mid - 1
+                li = lo
+                aware = any(re.search(r"[cC]ontext", a) for a in al[1:])
+                text = norm(call)
+                if inside:
+                    # the branch the call sits in (the fast-path wrappers test hasPreserveOrStripSpaceConditions())
+                    for back in range(1, 5):
+                        g = lines[li - back].strip() if li - back >= 0 else ""
+                        if g.startswith("if") or g.startswith("else"):
+                            text = norm(g) + " : " + text
+                            break
+                        if g.endswith(")") and not g.startswith("{") and lines[li - back - 1].strip().startswith(("static", "inline")):
+                            break
+                res.append((os.path.relpath(p, SRC), signature(lines, li), text, "ctx" if aware else "noctx"))
+    return res
+
+
 def lean_str(s):
     return '"' + s.replace("\\", "\\\\").replace('"', '\\"') + '"'
 
@@ -163,11 +257,26 @@ def main():
             "def facts : List (String × String) := ["]
     fs = facts()
     out.append(",\n".join("  (%s,\n   %s)" % (lean_str(a), lean_str(b)) for a, b in fs))
+    vs = sorted(value_sites())
+    outside = [v for v in vs if not v[0].startswith("DOMSupport/DOMServices.")]
+    funnel = [v for v in vs if v[0].startswith("DOMSupport/DOMServices.") and "ExecutionContext&" in v[1]]
+    out += ["]", "",
+            "/-- (file, enclosing function, call, ctx|noctx): every call of DOMServices::getNodeData outside DOMServices — the",
+            "places that compute a node's string value (key(), id(), string(), normalize-space(), string-length(), sum(),",
+            "value-of, sort keys, key tables, node-set conversions …) and whether they hand on the execution context -/",
+            "def valueSitesOutside : List (String × String × String × String) := ["]
+    out.append(",\n".join("  (%s, %s,\n   %s, %s)" % tuple(lean_str(x) for x in v) for v in outside))
+    out += ["]", "",
+            "/-- the same inside DOMServices, for the functions that receive an execution context (the strip-aware funnel):",
+            "getNodeData / getChildData / getChildrenData / doGetNodeData calls and whether they hand the context on -/",
+            "def valueSitesFunnel : List (String × String × String × String) := ["]
+    out.append(",\n".join("  (%s, %s,\n   %s, %s)" % tuple(lean_str(x) for x in v) for v in funnel))
     out += ["]", "", "end XalanModel.Generated.C13_Sites", ""]
     os.makedirs(common.GEN, exist_ok=True)
     with open(os.path.join(common.GEN, "C13_Sites.lean"), "w", encoding="utf-8") as h:
         h.write("\n".join(out))
-    print("c13_sites: %d call sites, %d facts (%d not found)" % (len(sites), len(fs), sum(1 for _, b in fs if b.startswith("?"))))
+    print("c13_sites: %d call sites, %d facts (%d not found), %d string-value sites (%d without context)" % (
+        len(sites), len(fs), sum(1 for _, b in fs if b.startswith("?")), len(outside) + len(funnel), sum(1 for v in outside + funnel if v[3] == "noctx")))
     return 0
 
 
